@@ -2529,6 +2529,8 @@ void uncrustify_end()
    cpd.unc_off     = false;
    cpd.al_cnt      = 0;
    cpd.did_newline = true;
+   cpd.last_char   = 0;   // output state must not leak into the next file
+   cpd.spaces      = 0;
    cpd.pp_level    = 0;
    cpd.changes     = 0;
    cpd.in_preproc  = CT_NONE;
